@@ -134,6 +134,22 @@ Section Blocks.
   | sok_while fr G c body G1 : top_ok (envG G) c -> body_trees false body <> [] ->
       use_vars (tvars (fexpr_tree c)) ([] :: G) = Some G1 -> boks (fr_push true fr) G1 false false body ->
       sok fr G (FmtAst.SWhile c [] body [])
+  | sok_if fr G c body elifs G1 Gn Gm : top_ok (envG G) c -> body_trees false body <> [] ->
+      use_vars (tvars (fexpr_tree c)) ([] :: G) = Some G1 -> boks (fr_push false fr) G1 false false body ->
+      scope_block TB (blk_of (body_trees false body)) G1 = Some Gn -> coks fr Gn elifs Gm ->
+      sok fr G (FmtAst.SIf (CBlock c [] body) elifs None [])
+  | sok_if_else fr G c body elifs G1 Gn Gm eb : top_ok (envG G) c -> body_trees false body <> [] ->
+      use_vars (tvars (fexpr_tree c)) ([] :: G) = Some G1 -> boks (fr_push false fr) G1 false false body ->
+      scope_block TB (blk_of (body_trees false body)) G1 = Some Gn -> coks fr Gn elifs Gm ->
+      body_trees false eb <> [] -> boks (fr_push false fr) ([] :: Gm) false false eb ->
+      sok fr G (FmtAst.SIf (CBlock c [] body) elifs (Some ([], eb)) [])
+  (* the "else if" branches: the context after each branch is the one the scope checker computes *)
+  with coks : frs -> ctx -> list cblock -> ctx -> Prop :=
+  | coks_nil fr G : coks fr G [] G
+  | coks_cons fr G c body rest G1 Gn Gout : top_ok (envG G) c -> body_trees false body <> [] ->
+      use_vars (tvars (fexpr_tree c)) ([] :: G) = Some G1 -> boks (fr_push false fr) G1 false false body ->
+      scope_block TB (blk_of (body_trees false body)) G1 = Some Gn -> coks fr Gn rest Gout ->
+      coks fr G (CBlock c [] body :: rest) Gout
   (* the statements of a block: [terms] = a statement before always terminates, [emp] = the formatter
      has just written a blank line *)
   with boks : frs -> ctx -> bool -> bool -> list fstmt -> Prop :=
@@ -144,6 +160,7 @@ Section Blocks.
       boks fr G false e (st :: rest).
 
   Scheme sok_mind := Minimality for sok Sort Prop
+  with coks_mind := Minimality for coks Sort Prop
   with boks_mind := Minimality for boks Sort Prop.
 
   (* ---------- the parser state between statements ---------- *)
@@ -564,36 +581,286 @@ Section Blocks.
     eexists. split; [reflexivity|]. split; [exact A4 | exact P4].
   Qed.
 
-  (* ---------- the statement theorem ---------- *)
-  Theorem stmt_roundtrip : forall fr G st, sok fr G st -> P_sok fr G st.
+  (* ---------- if / else if / else ---------- *)
+  Lemma ST_fr_ne s q G fr : ST s q G fr -> fr <> [].
+  Proof. intros (_ & _ & N & _ & _ & Fr & _) E. subst fr. unfold frames in E. destruct (scs s); [contradiction|discriminate]. Qed.
+
+  Lemma ST_pop s q G x fr : ST s q G (x :: fr) -> fr <> [] -> ST (pop_scope s) q (tl G) fr.
   Proof.
-    apply (sok_mind P_sok P_boks).
-    - intros; eapply P_typed; eassumption.
-    - intros; eapply P_decl; eassumption.
-    - intros; eapply P_assign; eassumption.
-    - intros; eapply P_call; eassumption.
-    - intros; eapply P_retv; eassumption.
-    - intros; eapply P_ret; eassumption.
-    - intros; eapply P_break; eassumption.
-    - intros; eapply P_while; eassumption.
-    - intros; eapply P_boks_nil; eassumption.
-    - intros; eapply P_boks_blank; eassumption.
-    - intros; eapply P_boks_cons; eassumption.
+    intros (Hat & Hp & N & U & A & Fr & Fn) Hne.
+    assert (Fr' : frames (pop_scope s) = fr) by (rewrite frames_pop_scope, Fr; reflexivity).
+    split; [exact Hat|]. split; [exact Hp|]. split.
+    { intro E. unfold frames in Fr'. rewrite E in Fr'. cbn in Fr'. symmetry in Fr'. contradiction. }
+    split; [exact U|]. split; [rewrite abs_pop_scope, A; reflexivity|]. split; [exact Fr' | exact Fn].
   Qed.
 
-  Theorem body_roundtrip : forall fr G t e body, boks fr G t e body -> P_boks fr G t e body.
+  Lemma ind_skip lvl t r : is_ws t = false -> skip1 (toks_of_pieces [Ind lvl] ++ t :: r) = t :: r.
+  Proof. intro H. destruct lvl; cbn [toks_of_pieces flat_map tok_of_piece app skip1]; [rewrite H|]; reflexivity. Qed.
+
+  (* one branch: "if" condition, block, up to (not including) else / end *)
+  Lemma cond_block_rt lvl f s c body endq tk r' G fr G1 Gn :
+    top_ok (envG G) c -> body_trees false body <> [] ->
+    use_vars (tvars (fexpr_tree c)) ([] :: G) = Some G1 -> boks (fr_push false fr) G1 false false body ->
+    P_boks (fr_push false fr) G1 false false body ->
+    scope_block TB (blk_of (body_trees false body)) G1 = Some Gn ->
+    S (szl body) <= f -> skip1 endq = tk :: r' -> at_end true (ttype tk) = true ->
+    ST s (mk T_IF :: mk T_WS :: toks_of_pieces (fmt_expr fx lvl c) ++ mk T_NL :: body_toks (S lvl) false body ++ endq) G fr ->
+    exists s3, parse_if_cond_block B (parse_statement B f) f s = Ok (Some (fexpr_tree c), blk_of (body_trees false body)) s3 /\
+               ST s3 (tk :: r') Gn fr.
   Proof.
-    apply (boks_mind P_sok P_boks).
-    - intros; eapply P_typed; eassumption.
-    - intros; eapply P_decl; eassumption.
-    - intros; eapply P_assign; eassumption.
-    - intros; eapply P_call; eassumption.
-    - intros; eapply P_retv; eassumption.
-    - intros; eapply P_ret; eassumption.
-    - intros; eapply P_break; eassumption.
-    - intros; eapply P_while; eassumption.
-    - intros; eapply P_boks_nil; eassumption.
-    - intros; eapply P_boks_blank; eassumption.
-    - intros; eapply P_boks_cons; eassumption.
+    intros Hc Hne Hu Hb IH Hsb Hf Hend Hat HST.
+    pose proof HST as (Hat0 & Hpk & N & U & A & Fr & Fn).
+    unfold parse_if_cond_block.
+    destruct (top_head lvl _ c (envG_no_tyerr G) eq_refl Hc) as (t0 & ts & Ht & Hw0).
+    set (q := body_toks (S lvl) false body ++ endq) in *.
+    set (s0 := push_inherit false s).
+    assert (A0 : at_toks s0 (mk T_IF :: mk T_WS :: toks_of_pieces (fmt_expr fx lvl c) ++ mk T_NL :: q) []) by exact Hat0.
+    assert (A1 : at_toks (adv s0) (toks_of_pieces (fmt_expr fx lvl c) ++ mk T_NL :: q) []).
+    { apply (adv_at s0 (mk T_IF) (mk T_WS :: toks_of_pieces (fmt_expr fx lvl c) ++ mk T_NL :: q) [] A0).
+      cbn [skip1 is_ws ttype mk]. rewrite Ht. exact Hw0. }
+    destruct (cond_rt lvl (adv s0) c q ([] :: G) (fr_push false fr) A1) as (s2 & PC & A2 & N2 & U2 & Hu2 & Fr2 & Fn2).
+    { unfold s0, push_inherit, push_scope. cbn [adv upd with_cs with_scs scs]. discriminate. }
+    { unfold s0. rewrite sused_adv, sused_push_inherit. exact U. }
+    { unfold s0. rewrite abs_adv, abs_push_inherit, A. reflexivity. }
+    { unfold s0. rewrite frames_adv, frames_push_inherit_fr, Fr. reflexivity. }
+    { unfold s0. rewrite fns_adv, fns_push_inherit. exact Fn. }
+    { exact Hc. }
+    rewrite PC. cbv beta iota. rewrite Hu in Hu2. injection Hu2 as HG1.
+    assert (Hq : is_ws (look0 (skip1 q)) = false).
+    { unfold q. apply (body_no_ws lvl) with (fr := fr_push false fr) (G := G1) (t := false); [|exact Hb]. rewrite Hend. exact (at_end_is_ws true tk Hat). }
+    assert (HST2 : ST (apnl s2) (skip1 q) G1 (fr_push false fr)).
+    { split; [apply apnl_nl; assumption|]. split; [eapply apnl_peek; eassumption|].
+      split; [exact N2|]. split; [rewrite sused_apnl; exact U2|]. split; [rewrite abs_apnl; symmetry; exact HG1|].
+      split; [rewrite frames_apnl; exact Fr2 | rewrite fns_apnl; exact Fn2]. }
+    destruct (block_rt lvl f true (apnl s2) body endq tk r' G1 (fr_push false fr) Hb IH Hne Hf Hend Hat HST2) as (s3 & G' & PB & HST3 & _).
+    rewrite PB. cbv beta iota.
+    (* the context after the block is the checker's *)
+    pose proof HST2 as (_ & _ & N2' & U2' & A2' & _ & Fn2').
+    pose proof HST3 as ((_ & _ & E3) & _ & _ & _ & A3 & _).
+    destruct (block_with_sim B (parse_statement B f) (stmt_sound B f) (stmt_sim B f) f true (apnl s2) _ s3 PB E3 (conj N2' U2')) as (_ & _ & _ & Hs).
+    rewrite Fn2', A2', A3 in Hs. fold TB in Hs. rewrite Hsb in Hs. injection Hs as ->.
+    eexists. split; [reflexivity|]. apply (ST_pop s3 _ G' _ fr HST3 (ST_fr_ne _ _ _ _ HST)).
   Qed.
+
+  Definition elif_toks (lvl : nat) (cbs : list cblock) : list token :=
+    flat_map (fun cb => match cb with
+                        | CBlock c _ body => toks_of_pieces [Ind lvl] ++ mk T_ELSE :: mk T_WS :: mk T_IF :: mk T_WS
+                                             :: toks_of_pieces (fmt_expr fx lvl c) ++ mk T_NL :: body_toks (S lvl) false body
+                        end) cbs.
+
+  Fixpoint szc (cbs : list cblock) : nat :=
+    match cbs with [] => 0 | CBlock _ _ b :: r => S (szl b + szc r) end.
+
+  Lemma elif_next lvl rest endq tk r' : skip1 endq = tk :: r' -> at_end true (ttype tk) = true ->
+    exists tk' r'', skip1 (elif_toks lvl rest ++ endq) = tk' :: r'' /\ at_end true (ttype tk') = true.
+  Proof.
+    intros He Ha. destruct rest as [|[c ch body] rest]; [exists tk, r'; auto|].
+    cbn [elif_toks flat_map]. rewrite <- !app_assoc. cbn [app]. rewrite (ind_skip lvl (mk T_ELSE) _ eq_refl).
+    eexists; eexists. split; reflexivity.
+  Qed.
+
+  Definition P_coks (fr : frs) (G : ctx) (cbs : list cblock) (Gout : ctx) : Prop :=
+    forall lvl f fuel acc s endq tk r',
+      S (szc cbs) <= f -> List.length cbs < fuel ->
+      skip1 endq = tk :: r' -> at_end true (ttype tk) = true ->
+      (ttype tk = T_ELSE -> ttype (peek_of (tk :: r')) <> T_IF) ->
+      ST s (skip1 (elif_toks lvl cbs ++ endq)) G fr ->
+      exists s', else_if_loop B (parse_statement B f) fuel f acc s = Ok (rev acc ++ map cb_tree cbs) s' /\ ST s' (tk :: r') Gout fr.
+
+  Lemma P_coks_nil fr G : P_coks fr G [] G.
+  Proof.
+    intros lvl f fuel acc s endq tk r' Hf Hfu Hend Hat Hnif HST. destruct fuel as [|fuel]; [cbn in Hfu; lia|].
+    cbn [elif_toks flat_map app] in HST. rewrite Hend in HST.
+    exists s. cbn [else_if_loop map]. rewrite app_nil_r. split; [|exact HST].
+    rewrite (ST_ct _ _ _ _ _ HST). destruct HST as (_ & Hp & _). unfold peek_ok in Hp. rewrite Hp.
+    destruct (ttype tk) eqn:Et; try reflexivity.
+    specialize (Hnif eq_refl). destruct (ttype (peek_of (tk :: r'))); try reflexivity. contradiction.
+  Qed.
+
+  Lemma P_coks_cons fr G c body rest G1 Gn Gout : top_ok (envG G) c -> body_trees false body <> [] ->
+    use_vars (tvars (fexpr_tree c)) ([] :: G) = Some G1 -> boks (fr_push false fr) G1 false false body ->
+    P_boks (fr_push false fr) G1 false false body ->
+    scope_block TB (blk_of (body_trees false body)) G1 = Some Gn -> coks fr Gn rest Gout -> P_coks fr Gn rest Gout ->
+    P_coks fr G (CBlock c [] body :: rest) Gout.
+  Proof.
+    intros Hc Hne Hu Hb IHb Hsb _ IH lvl f fuel acc s endq tk r' Hf Hfu Hend Hat Hnif HST.
+    destruct fuel as [|fuel]; [cbn in Hfu; lia|]. cbn [szc] in Hf. cbn [List.length] in Hfu.
+    cbn [elif_toks flat_map] in HST. fold (elif_toks lvl rest) in HST. rewrite <- !app_assoc in HST. cbn [app] in HST.
+    rewrite (ind_skip lvl (mk T_ELSE) _ eq_refl) in HST. rewrite <- app_assoc in HST. cbn [app] in HST.
+    cbn [else_if_loop]. rewrite (ST_ct _ _ _ _ _ HST).
+    pose proof HST as (_ & Hp & _). unfold peek_ok in Hp. rewrite Hp. cbn [ttype mk peek_of look1 look2 tl hd is_ws].
+    pose proof (ST_adv _ _ _ _ _ HST eq_refl) as HST1. cbn [skip1 is_ws ttype mk] in HST1.
+    destruct (elif_next lvl rest endq tk r' Hend Hat) as (tk' & r'' & Hn1 & Hn2).
+    destruct (cond_block_rt lvl f (adv s) c body (elif_toks lvl rest ++ endq) tk' r'' G fr G1 Gn Hc Hne Hu Hb IHb Hsb ltac:(lia) Hn1 Hn2 HST1) as (s3 & PB & HST3).
+    rewrite PB. cbv beta iota. rewrite <- Hn1 in HST3.
+    destruct (IH lvl f fuel (cb_tree (CBlock c [] body) :: acc) s3 endq tk r' ltac:(lia) ltac:(lia) Hend Hat Hnif HST3) as (s' & P & Q).
+    exists s'. split; [|exact Q]. cbn [cb_tree] in P. rewrite P. cbn [rev map cb_tree]. rewrite <- app_assoc. reflexivity.
+  Qed.
+
+  Lemma elifs_toks lvl fr G elifs Gm : coks fr G elifs Gm ->
+    toks_of_pieces (flat_map (fun cb => match cb with
+                               | CBlock cond c body =>
+                                   [Ind lvl; T k_else; Sp; T k_if; Sp] ++ fmt_expr fx lvl cond ++ write_comment c ++ [NL]
+                                   ++ stmts_loop (S lvl) false (map (fun x => (is_blank x, fmt_stmt fx (S lvl) x)) body)
+                               end) elifs) = elif_toks lvl elifs.
+  Proof.
+    induction 1 as [|fr G c body rest G1 Gn Gout _ _ _ _ _ _ IH]; [reflexivity|].
+    cbn [flat_map elif_toks]. rewrite toks_app, IH. f_equal.
+    unfold write_comment. cbn [is_empty app]. unfold body_toks.
+    repeat (rewrite toks_cons || rewrite toks_app). cbn [tok_of_piece app toks_of_pieces flat_map].
+    change (tok_of_text k_else) with (mk T_ELSE). change (tok_of_text k_if) with (mk T_IF).
+    rewrite <- ?app_assoc. cbn [app]. rewrite ?app_nil_r. destruct lvl; reflexivity.
+  Qed.
+
+  Definition else_toks (lvl : nat) (els : option (str * list fstmt)) : list token :=
+    match els with
+    | Some (_, eb) => toks_of_pieces [Ind lvl] ++ mk T_ELSE :: mk T_NL :: body_toks (S lvl) false eb
+    | None => []
+    end.
+
+  Lemma if_toks lvl fr G c body elifs Gm (els : option (str * list fstmt)) r : coks fr G elifs Gm ->
+    match els with Some (ch, _) => ch = [] | None => True end ->
+    toks_of_pieces (fmt_stmt fx lvl (FmtAst.SIf (CBlock c [] body) elifs els [])) ++ mk T_NL :: r
+    = mk T_IF :: mk T_WS :: toks_of_pieces (fmt_expr fx lvl c) ++ mk T_NL :: body_toks (S lvl) false body
+      ++ (elif_toks lvl elifs ++ else_toks lvl els ++ toks_of_pieces [Ind lvl] ++ mk T_END :: mk T_NL :: r).
+  Proof.
+    intros Hk He. cbn [fmt_stmt]. unfold body_toks.
+    repeat (rewrite toks_cons || rewrite toks_app). rewrite (elifs_toks lvl fr G elifs Gm Hk).
+    cbn [tok_of_piece]. change (tok_of_text k_if) with (mk T_IF).
+    destruct els as [[ch eb]|]; [subst ch|]; unfold write_comment; cbn [is_empty else_toks app]; unfold body_toks;
+      repeat (rewrite toks_cons || rewrite toks_app); cbn [tok_of_piece app toks_of_pieces flat_map];
+      change (tok_of_text k_else) with (mk T_ELSE); change (tok_of_text k_end) with (mk T_END);
+      rewrite <- ?app_assoc; cbn [app]; rewrite <- ?app_assoc; cbn [app]; rewrite ?app_nil_r; destruct lvl; reflexivity.
+  Qed.
+
+  Lemma stmt_tree_if c ch b elifs els ce :
+    stmt_tree (FmtAst.SIf (CBlock c ch b) elifs els ce)
+    = Parser.SIf (cb_tree (CBlock c ch b) :: map cb_tree elifs)
+                 (match els with Some (_, eb) => Some (blk_of (body_trees false eb)) | None => None end).
+  Proof.
+    cbn [stmt_tree cb_tree]. f_equal. f_equal.
+    induction elifs as [|[c' ch' b'] rest IH]; [reflexivity|]. cbn [map cb_tree]. rewrite <- IH. reflexivity.
+  Qed.
+
+  Lemma sz_if c ch b elifs els ce :
+    sz (FmtAst.SIf (CBlock c ch b) elifs els ce) = S (S (szl b + szc elifs + match els with Some (_, eb) => S (szl eb) | None => 0 end)).
+  Proof.
+    assert (H : (fix go (l : list cblock) : nat := match l with [] => 0 | CBlock _ _ b0 :: r => S (szl b0 + go r) end) elifs = szc elifs).
+    { induction elifs as [|[c' ch' b'] rest IH]; [reflexivity|]. cbn [szc]. rewrite <- IH. reflexivity. }
+    rewrite <- H. destruct els as [[? ?]|]; reflexivity.
+  Qed.
+
+  Lemma elif_len lvl cbs : 2 * List.length cbs <= List.length (elif_toks lvl cbs).
+  Proof.
+    induction cbs as [|[c ch b] rest IH]; [cbn; lia|]. cbn [elif_toks flat_map List.length]. fold (elif_toks lvl rest).
+    rewrite !app_length. cbn [List.length]. lia.
+  Qed.
+
+  Lemma skip1_len l : List.length l <= S (List.length (skip1 l)).
+  Proof. destruct l as [|t r]; [cbn; lia|]. cbn [skip1]. destruct (is_ws t); cbn [List.length]; lia. Qed.
+
+  (* the common part: the if branch and the else-if branches *)
+  Lemma if_head lvl f s c body elifs endq tk r' fr G G1 Gn Gm :
+    top_ok (envG G) c -> body_trees false body <> [] ->
+    use_vars (tvars (fexpr_tree c)) ([] :: G) = Some G1 -> boks (fr_push false fr) G1 false false body ->
+    P_boks (fr_push false fr) G1 false false body ->
+    scope_block TB (blk_of (body_trees false body)) G1 = Some Gn -> coks fr Gn elifs Gm -> P_coks fr Gn elifs Gm ->
+    S (szl body + szc elifs) <= f ->
+    skip1 endq = tk :: r' -> at_end true (ttype tk) = true -> (ttype tk = T_ELSE -> ttype (peek_of (tk :: r')) <> T_IF) ->
+    ST s (mk T_IF :: mk T_WS :: toks_of_pieces (fmt_expr fx lvl c) ++ mk T_NL :: body_toks (S lvl) false body ++ (elif_toks lvl elifs ++ endq)) G fr ->
+    exists s1 s2, parse_if_cond_block B (parse_statement B f) f s = Ok (cb_tree (CBlock c [] body)) s1 /\
+                  else_if_loop B (parse_statement B f) (S (pos s1)) f [cb_tree (CBlock c [] body)] s1
+                  = Ok (cb_tree (CBlock c [] body) :: map cb_tree elifs) s2 /\ ST s2 (tk :: r') Gm fr.
+  Proof.
+    intros Hc Hne Hu Hb IHb Hsb Hk IHk Hf Hend Hat Hnif HST.
+    destruct (elif_next lvl elifs endq tk r' Hend Hat) as (tk' & r'' & Hn1 & Hn2).
+    destruct (cond_block_rt lvl f s c body (elif_toks lvl elifs ++ endq) tk' r'' G fr G1 Gn Hc Hne Hu Hb IHb Hsb ltac:(lia) Hn1 Hn2 HST) as (s1 & PB & HST1).
+    rewrite <- Hn1 in HST1.
+    assert (Hfu : List.length elifs < S (pos s1)).
+    { destruct HST1 as ((R1 & _) & _). unfold pos, here. rewrite R1.
+      pose proof (skip1_len (elif_toks lvl elifs ++ endq)). pose proof (elif_len lvl elifs). rewrite app_length in H.
+      assert (1 <= List.length endq). { destruct endq; [discriminate Hend|cbn; lia]. } lia. }
+    destruct (IHk lvl f (S (pos s1)) [cb_tree (CBlock c [] body)] s1 endq tk r' ltac:(lia) Hfu Hend Hat Hnif HST1) as (s2 & P2 & HST2).
+    exists s1, s2. split; [exact PB|]. split; [|exact HST2]. rewrite P2. reflexivity.
+  Qed.
+
+  Lemma P_if fr G c body elifs G1 Gn Gm : top_ok (envG G) c -> body_trees false body <> [] ->
+    use_vars (tvars (fexpr_tree c)) ([] :: G) = Some G1 -> boks (fr_push false fr) G1 false false body ->
+    P_boks (fr_push false fr) G1 false false body ->
+    scope_block TB (blk_of (body_trees false body)) G1 = Some Gn -> coks fr Gn elifs Gm -> P_coks fr Gn elifs Gm ->
+    P_sok fr G (FmtAst.SIf (CBlock c [] body) elifs None []).
+  Proof.
+    intros Hc Hne Hu Hb IHb Hsb Hk IHk lvl f s r Hf HST Hn. rewrite sz_if in Hf. destruct f as [|f]; [lia|].
+    rewrite (if_toks lvl fr Gn c body elifs Gm None r Hk I) in HST. rewrite stmt_tree_if.
+    cbn [parse_statement]. unfold parse_statement_body. rewrite (ST_ct _ _ _ _ _ HST). cbn [ttype mk].
+    unfold parse_if_stmt. cbn [else_toks app] in HST.
+    destruct (if_head lvl f s c body elifs (toks_of_pieces [Ind lvl] ++ mk T_END :: mk T_NL :: r) (mk T_END) (mk T_NL :: r) fr G G1 Gn Gm
+                Hc Hne Hu Hb IHb Hsb Hk IHk ltac:(lia) (end_toks lvl _) eq_refl ltac:(discriminate) HST) as (s1 & s2 & P1 & P2 & HST2).
+    rewrite P1. cbv beta iota. rewrite P2. cbv beta iota. rewrite (ST_ct _ _ _ _ _ HST2). cbn [ttype mk]. cbv beta iota.
+    destruct (finish_end_rt s2 r Gm _ HST2 Hn) as (A4 & P4).
+    eexists. split; [reflexivity|]. split; [exact A4 | exact P4].
+  Qed.
+
+  Lemma P_if_else fr G c body elifs G1 Gn Gm eb : top_ok (envG G) c -> body_trees false body <> [] ->
+    use_vars (tvars (fexpr_tree c)) ([] :: G) = Some G1 -> boks (fr_push false fr) G1 false false body ->
+    P_boks (fr_push false fr) G1 false false body ->
+    scope_block TB (blk_of (body_trees false body)) G1 = Some Gn -> coks fr Gn elifs Gm -> P_coks fr Gn elifs Gm ->
+    body_trees false eb <> [] -> boks (fr_push false fr) ([] :: Gm) false false eb ->
+    P_boks (fr_push false fr) ([] :: Gm) false false eb ->
+    P_sok fr G (FmtAst.SIf (CBlock c [] body) elifs (Some ([], eb)) []).
+  Proof.
+    intros Hc Hne Hu Hb IHb Hsb Hk IHk Hnee Hbe IHe lvl f s r Hf HST Hn. rewrite sz_if in Hf. destruct f as [|f]; [lia|].
+    rewrite (if_toks lvl fr Gn c body elifs Gm (Some ([], eb)) r Hk eq_refl) in HST. rewrite stmt_tree_if.
+    cbn [parse_statement]. unfold parse_statement_body. rewrite (ST_ct _ _ _ _ _ HST). cbn [ttype mk].
+    unfold parse_if_stmt. cbn [else_toks] in HST.
+    set (endq2 := toks_of_pieces [Ind lvl] ++ mk T_END :: mk T_NL :: r) in *.
+    set (q := body_toks (S lvl) false eb ++ endq2) in *.
+    destruct (if_head lvl f s c body elifs ((toks_of_pieces [Ind lvl] ++ mk T_ELSE :: mk T_NL :: body_toks (S lvl) false eb) ++ endq2)
+                (mk T_ELSE) (mk T_NL :: q) fr G G1 Gn Gm
+                Hc Hne Hu Hb IHb Hsb Hk IHk ltac:(lia)) as (s1 & s2 & P1 & P2 & HST2).
+    { rewrite <- app_assoc. cbn [app]. rewrite (ind_skip lvl (mk T_ELSE) _ eq_refl). reflexivity. }
+    { reflexivity. }
+    { intros _. cbn. discriminate. }
+    { exact HST. }
+    rewrite P1. cbv beta iota. rewrite P2. cbv beta iota. rewrite (ST_ct _ _ _ _ _ HST2). cbn [ttype mk]. cbv beta iota.
+    (* else: NL, then the block in a new scope *)
+    pose proof (ST_adv s2 (mk T_ELSE) (mk T_NL :: q) Gm fr HST2 eq_refl) as H1. cbn [skip1 is_ws ttype mk] in H1.
+    rewrite (assert_eol_nl (adv s2) q [] (ST_at _ _ _ _ H1)).
+    assert (Hq : is_ws (look0 (skip1 q)) = false).
+    { unfold q. apply (body_no_ws lvl) with (fr := fr_push false fr) (G := [] :: Gm) (t := false); [|exact Hbe]. unfold endq2. rewrite end_toks. reflexivity. }
+    pose proof H1 as (Hat1 & _ & N1 & U1 & A1 & Fr1 & Fn1).
+    set (s3 := push_inherit false (apnl (adv s2))).
+    assert (HST3 : ST s3 (skip1 q) ([] :: Gm) (fr_push false fr)).
+    { split; [exact (apnl_nl (adv s2) q [] Hat1 Hq)|]. split; [exact (apnl_peek (adv s2) q [] Hat1)|].
+      split; [unfold s3, push_inherit, push_scope; cbn [with_scs scs]; discriminate|].
+      split; [unfold s3; rewrite sused_push_inherit, sused_apnl; exact U1|].
+      split; [unfold s3; rewrite abs_push_inherit, abs_apnl, A1; reflexivity|].
+      split; [unfold s3; rewrite frames_push_inherit_fr, frames_apnl, Fr1; reflexivity|].
+      unfold s3. rewrite fns_push_inherit, fns_apnl. exact Fn1. }
+    destruct (block_rt lvl f false s3 eb endq2 (mk T_END) (mk T_NL :: r) ([] :: Gm) (fr_push false fr) Hbe IHe Hnee ltac:(lia) (end_toks lvl _) eq_refl HST3)
+      as (s4 & G' & PB & HST4 & _).
+    rewrite PB. cbv beta iota.
+    pose proof (ST_pop s4 _ G' _ fr HST4 (ST_fr_ne _ _ _ _ HST)) as HST5.
+    destruct (finish_end_rt (pop_scope s4) r (tl G') _ HST5 Hn) as (A4 & P4).
+    eexists. split; [reflexivity|]. split; [exact A4 | exact P4].
+  Qed.
+
+  (* ---------- the statement theorem ---------- *)
+  Ltac cases :=
+    first [ intros; eapply P_typed; eassumption | intros; eapply P_decl; eassumption | intros; eapply P_assign; eassumption
+          | intros; eapply P_call; eassumption | intros; eapply P_retv; eassumption | intros; eapply P_ret; eassumption
+          | intros; eapply P_break; eassumption | intros; eapply P_while; eassumption
+          | intros; eapply P_if; eassumption | intros; eapply P_if_else; eassumption
+          | intros; eapply P_coks_nil | intros; eapply P_coks_cons; eassumption
+          | intros; eapply P_boks_nil; eassumption | intros; eapply P_boks_blank; eassumption
+          | intros; eapply P_boks_cons; eassumption ].
+
+  Theorem stmt_roundtrip : forall fr G st, sok fr G st -> P_sok fr G st.
+  Proof. apply (sok_mind P_sok P_coks P_boks); cases. Qed.
+
+  Theorem branches_roundtrip : forall fr G cbs Gout, coks fr G cbs Gout -> P_coks fr G cbs Gout.
+  Proof. apply (coks_mind P_sok P_coks P_boks); cases. Qed.
+
+  Theorem body_roundtrip : forall fr G t e body, boks fr G t e body -> P_boks fr G t e body.
+  Proof. apply (boks_mind P_sok P_coks P_boks); cases. Qed.
 End Blocks.
